@@ -32,7 +32,8 @@ Theorem C20_second_export_for_current_tree : forall F env h t s, wf_app F env s 
                   export_app env s' = Some g' /\ gen_equiv h g g'.
 Proof.
   intros F env h t s. apply (C20_export_roundtrip current_cfg F env h t s).
-  exact (proj2 (proj2 (cfg_ok_parts current_cfg C20_current_cfg_ok))).
+  - exact (proj2 (proj2 (cfg_ok_parts current_cfg C20_current_cfg_ok))).
+  - exact (cfg_ok_start current_cfg C20_current_cfg_ok).
 Qed.
 Print Assumptions C20_second_export_for_current_tree.
 
